@@ -288,6 +288,13 @@ def _gen_cat(rng, dump, cat, valid):
         if r < 0.55 and D["instance"]:
             return {"t": "setTop", "n": n, "i": rng.choice(_ids(D, "instance"))}
         if D["definition"] and len(D["instance"]) < MAXN["instance"]:
-            return {"t": "setTopDef", "n": n, "d": rng.choice(_ids(D, "definition")), "i": _fresh(D, "instance")}
+            op = {"t": "setTopDef", "n": n, "d": rng.choice(_ids(D, "definition")), "i": _fresh(D, "instance")}
+            if rng.random() < 0.5:
+                # Netlist.set_top_instance(definition, instance_name=...): also renames; refused when the name is taken
+                op["named"] = True
+                lib = D["definition"][op["d"]]["lib"]
+                if lib is not None and len(D["library"][lib]["defs"]) >= 2 and rng.random() < 0.5:
+                    op["veto"] = True
+            return op
         return None
     return None
